@@ -1,9 +1,9 @@
 from reghelp import *
 
 CHECK = dict(
-    runs=runs3('h_ring', (14, 8, 14), (80, 40, 120), timeout=(300, 900)) +
-         runs3('h_ringchan', (14, 8, 14), (80, 40, 100), timeout=(300, 1200)),
-    par=10,
+    runs=runs3('h_ring', (14, 8, 14), (70, 35, 100), timeout=(300, 900)) +
+         runs3('h_ringchan', (14, 8, 14), (60, 30, 80), timeout=(300, 1200)),
+    par=12,
     level='exploration',
     rule='one evaluation = one seeded execution (fresh process). h_ring: P producers x C consumers (OS threads) over one ring queue '
          '(MPMC with 64/8-bit marks, batch MPMC, SPSC; fixed/Flex; capacity 2..64) with push/pop/send/recv/batch operations and stall '
@@ -19,7 +19,7 @@ CHECK = dict(
                         'full_phases_in_which_a_sender_slept': 50, 'idle_gaps_in_which_consumers_slept': 50,
                         'stall_P_RING_PUSH_CLAIMED': 20, 'stall_P_RING_POP_CLAIMED': 20, 'push_returned_false': 1000,
                         'pop_returned_false': 1000, 'capacity_samples': 10000}),
-        thorough=dict(evaluations=350, events=5000000, distinct=150,
+        thorough=dict(evaluations=300, events=5000000, distinct=150,
                       cov={'executions_with_3_or_more_turns': 150, 'C_RING_PUSH_FULL': 20000, 'C_RING_POP_EMPTY': 20000, 'C_RING_BATCH_WRAP': 2000,
                            'C_RINGCHAN_CONSUMER_SLEPT': 20000, 'C_RINGCHAN_CONSUMER_SIGNALLED': 20000, 'C_RINGCHAN_SENDER_BACKOFF': 2000,
                            'full_phases_in_which_a_sender_slept': 1000, 'idle_gaps_in_which_consumers_slept': 1000,
